@@ -78,6 +78,11 @@ def make_form(rng, i):
     return f
 
 
+def _first_text_diff(a, b):
+    k = next((i for i, (x, y) in enumerate(zip(a, b)) if x != y), min(len(a), len(b)))
+    return f"...{a[max(0, k - 60):k + 60]!r} vs ...{b[max(0, k - 60):k + 60]!r}"
+
+
 def check(ctx, form, sig, emit_sample=False):
     from pyxform.builder import create_survey_element_from_dict
     from pyxform.xls2json import workbook_to_json
@@ -139,6 +144,24 @@ def check(ctx, form, sig, emit_sample=False):
             if x2 != x0:
                 dd = xdiff.diffs(x0, x2)
                 ctx.viol("R3:xform-differs:" + _cls(dd), f"[{label}] survey->to_json_dict->JSON text->survey gives a different XForm: {dd[:2]}", wit(rel="R3"))
+            # ---- R4: the file entry points (json_dump -> create_survey_element_from_json) and the to_json() text
+            if label == "fresh":
+                import os
+                import tempfile
+                from pyxform.builder import create_survey_element_from_json
+                fd, path = tempfile.mkstemp(suffix=".json", prefix="verif_c16_")
+                os.close(fd)
+                try:
+                    survey.json_dump(path)
+                    x4 = create_survey_element_from_json(path).to_xml(validate=False, pretty_print=False)
+                    x5 = create_survey_element_from_json(survey.to_json()).to_xml(validate=False, pretty_print=False)
+                finally:
+                    os.unlink(path)
+                ctx.ctr("R4_evaluated")
+                for nm, xx in (("json_dump-file", x4), ("to_json-text", x5)):
+                    if xx != x0:
+                        dd = xdiff.diffs(x0, xx) or [f"texts differ only in order: {_first_text_diff(x0, xx)}"]
+                        ctx.viol(f"R4:xform-differs:{nm}:" + _cls(dd), f"survey -> {nm} -> create_survey_element_from_json gives a different XForm: {dd[:2]}", wit(rel="R4"))
         except Exception as e:  # noqa: BLE001
             key = f"R3:raised:{type(e).__name__}"
             if isinstance(e, KeyError) and "itemset" in str(e) and has_search and label == "after-to_xml":
